@@ -23,7 +23,7 @@ from dvc_data.hashfile.hash_info import HashInfo  # noqa: E402
 from dvc_data.hashfile.meta import Meta  # noqa: E402
 from dvc_data.hashfile.tree import Tree  # noqa: E402
 
-PARTS = ["img", "img_raw", "im", "a", "a.b", "train", "train2", "z"]
+PARTS = ["img", "img_raw", "im", "a", "a.b", "train", "train2", "z", "a\\b"]
 DIGESTS = [hashlib.md5(bytes([i])).hexdigest() for i in range(5)]  # noqa: S324
 
 
@@ -73,6 +73,16 @@ def run_one(rng, odb):
     for back in (Tree.from_list(t.as_list()), Tree.from_list(t.as_list(with_meta=True), hash_name="md5")):
         if sorted((k, hi.value) for k, _, hi in back) != sorted((k, entries[k]) for k in entries):
             probs.append("(3) from_list(as_list(t)) is not t")
+    # a listing written WITH metadata parses back, given its hash name, to the same entries: metadata included (zero sizes too)
+    tz = Tree()
+    for i, k in enumerate(keys):
+        tz.add(k, Meta(size=(0 if i % 2 == 0 else i), isexec=(i % 3 == 0), nfiles=None), HashInfo("md5", entries[k]))
+    tz.digest()
+    backz = {k: (m.size, m.isexec) for k, m, _ in Tree.from_list(tz.as_list(with_meta=True), hash_name="md5")}
+    wantz = {k: (m.size, m.isexec) for k, m, _ in tz}
+    if backz != wantz:
+        bad = next(k for k in wantz if backz.get(k) != wantz[k])
+        probs.append(f"(3) listing with metadata: entry {'/'.join(bad)} had (size, isexec)={wantz[bad]}, parsed back {backz.get(bad)}")
     odb.add(t.path, t.fs, t.oid)
     loaded = Tree.load(odb, t.hash_info)
     if sorted((k, hi.value) for k, _, hi in loaded) != sorted((k, entries[k]) for k in entries):
@@ -108,7 +118,10 @@ def main():
     with tempfile.TemporaryDirectory(dir="/var/tmp") as tmp:
         odb = HashFileDB(LocalFileSystem(), os.path.join(tmp, "odb"))
         for _ in range(n):
-            failures += run_one(rng, odb)
+            try:
+                failures += run_one(rng, odb)
+            except Exception as e:  # noqa: BLE001
+                failures.append({"problems": [f"raised {type(e).__name__}: {str(e)[:120]}"]})
             evals += 1
     print(json.dumps({"evaluations": evals, "distinct_nontrivial": evals, "n_failures": len(failures), "failures": failures[:4],
                       "bound": f"{n} seeded entry sets: <= 7 files, depth <= 4, 8 path components with textual-extension siblings, 5 digests; "
